@@ -383,7 +383,9 @@ ResizeT(p, id, newLen) ==
            e2 == E(q, id)
            ch2 == ChainOfEntry(q, e2)
            mini2 == IsMini(e2)
-           oldEnd == CeilDiv(e.size, SectorLen) * SectorLen
+           \* everything the chain held before the call (since dd6be72: the rest of the old final sector AND any
+           \* surplus sectors of a chain longer than the length needs; the model's own chains are never longer)
+           oldEnd == IF IsMini(e) THEN 0 ELSE Len(Chain(p, e.start)) * SectorLen
        IN IF e.start = ENDC
           THEN (IF mini2 /\ Scrub THEN PutBytes(q, TRUE, ch2, 0, Const(newLen, 0)) ELSE q)          \* 1a: mini sectors are not zeroed when allocated; 1b: new sectors are
           ELSE IF IsMini(e)
